@@ -73,6 +73,18 @@ def _tinfo(b):
     return _TINFO[b]
 
 
+_RACE = [None]
+
+
+def _race():
+    from . import _threads as T
+    if _RACE[0] is None:
+        _RACE[0] = T.RaceFamily(TBASES, prep=lambda b: dict(b, app=[
+            {'when': dict(b['abandon']),
+             'do': [{'op': 'abandon', 'how': 'break'}]}]))
+    return _RACE[0]
+
+
 def plan(tier):
     nb = len(C09.bases())
     return [('sweep', nb * SLOTS),
@@ -84,12 +96,15 @@ def plan(tier):
             ('rebind', nb * (SLOTS // 4)),
             ('seeded', 2000 if tier == 'quick' else 100000),
             ('threaded_sweep', len(TBASES) * TSLOT * 2),
+            ('threaded_race', _race().size(tier)),
             ('threaded_random', 300 if tier == 'quick' else 30000)]
 
 
-def _threaded_case(family, i, rng):
+def _threaded_case(family, i, rng, tier='quick'):
     from . import _threads as T
-    if family == 'threaded_sweep':
+    if family == 'threaded_race':
+        case = _race().case(i, tier)
+    elif family == 'threaded_sweep':
         senders_first = i >= len(TBASES) * TSLOT
         i %= len(TBASES) * TSLOT
         b = i // TSLOT
@@ -175,7 +190,7 @@ EARLY = [{'op': 'sendall', 'k': 0, 'kind': 'reset'},
 
 def make_case(family, i, rng, tier):
     if family.startswith('threaded'):
-        return _threaded_case(family, i, rng)
+        return _threaded_case(family, i, rng, tier)
     if family == 'sweep_long_url':
         c = make_case('sweep', i, rng, tier)
         if c is not None:
